@@ -590,14 +590,13 @@ def run(repo, res, tier):
     res.rule("ARC-SIGN", "cumulative distance starts at 0, never decreases, sums Euclidean segment lengths", 4)
     res.rule("ARC-LERP", "interpolate_position interpolates all three polylines at one segment parameter", 9)
     res.rule("MERGE", "merge_lanelets concatenates corresponding polylines at one joint index", 9)
-    res.rule("ROUTE-GUARD", "path extensions are guarded against loops, the start lanelet and the range", 8)
-    res.rule("ROUTE-FLOW", "frontier initialisation, conservation and alignment of the route search", 18)
-    res.rule("ROUTE-SIBLING", "the two searches agree", 1)
+    res.rule("ROUTE-FLOW", "range searches, evaluated on small graphs: termination, loop-free chains of links from every direct neighbour, extension only below the range", 60)
     arc_sign(repo, res)
     arc_lerp(repo, res)
     # merge_lanelets: decided by evaluation (c20ev.merge_rule) over link cases x joint coincidence x argument order
     from . import c20ev
 
     c20ev.merge_rule(repo, res, "MERGE")
-    route(repo, res)
+    # the two range searches: decided by evaluation on small graphs (c20ev.route_rules)
+    c20ev.route_rules(repo, res, "ROUTE-FLOW")
     res.note("not decided: interpolation arithmetic as numbers, floating-point behaviour at vertices, lengths of merged lanelets as numbers")
